@@ -103,6 +103,11 @@ func loadBases(repo string, thorough bool) []baseDoc {
 			out = append(out, baseDoc{Name: fmt.Sprintf("recursive oddity %d (internal/grammar)", i+1), Doc: d, Invalid: i == 1})
 		}
 	}
+	for i, text := range grammar.Oddities {
+		if d, err := docmodel.Parse([]byte(text)); err == nil {
+			out = append(out, baseDoc{Name: fmt.Sprintf("oddity %d (internal/grammar)", i+1), Doc: d})
+		}
+	}
 	if d, err := docmodel.Parse([]byte(grammar.RecursiveDefaultsSpec)); err == nil {
 		out = append(out, baseDoc{Name: "recursive schemas in default responses (internal/grammar)", Doc: d})
 	}
